@@ -337,6 +337,7 @@ def gen_case(rng, dtypes):
         if case["params"]["with_values"]:
             val["vals"] = [None if v is None else abs(v) + 1 for v in val["vals"]]
     case["two_cols"] = bool(rng.random() < 0.35)
+    common.add_route(rng, case, 0.2)
     return case
 
 
